@@ -30,6 +30,9 @@ EXPLANATION += (
 EXPLANATION += (
     ' C02.6 also: in every three-element cube subscript of the read-side modules each axis-tagged element stands in the position of its axis; the xarray backend (basic indexing support) post-indexes the bounding-box window by the slice steps and drops integer-indexed axes. C02.7 also: each start of a diagonal belongs to the half of the family its enclosing test selects, and the two diagonal-length functions return exactly min of the cell bounds derived from those index polynomials - every path of each function, under its branch conditions, the id guard and the order of n_il and n_xl, compared by Fourier-Motzkin elimination over (n_il, n_xl, id), with a concrete witness reported when the two differ only on part of a case.'
 )
+EXPLANATION += (
+    ' C02.8 - in each mode (2D / 3D file; decided from the constant facts SgzReader.__init__ leaves for that mode) in which a public read method can return data, every parameter other than a boolean switch reaches a returned value by data dependence (closure over the statements reachable in that mode; control dependence such as a range check does not count): a window parameter dropped in one mode returns the unwindowed trace / plane.'
+)
 ASSUMPTIONS = [
     'a fixed-rate ZFP stream of an array stores its 4^d cells in C order, rate*4^d bits each (decoding an assembly of '
     'units equals the cell-by-cell decode)',
@@ -47,6 +50,7 @@ def run(ctx):
     ctx.rule('C02.3', 'crop of a decoded array = requested window relative to the origin actually read, axis by axis')
     ctx.rule('C02.5', 'coordinate -> ordinal translation only via coord_to_index with the axis list of the same axis')
     ctx.rule('C02.6', 'arguments keep their axis and min/max kind across the reader / loader / accessor layers')
+    ctx.rule('C02.8', 'every request parameter of a public read method reaches the returned value in each mode (2D / 3D) that returns data')
     ctx.rule('C02.7', 'trace linearisation uses the crossline count as radix; diagonal index polynomials have the right slopes')
     recs = LR.collect(ctx.shared)
     LR.report(ctx, recs, {'L1': 'C02.1', 'DEC': 'C02.2', 'L3': 'C02.2', 'L4': 'C02.3', 'HULL': 'C02.3'})
@@ -61,6 +65,7 @@ def run(ctx):
     subscript_axes(ctx, 'C02.6')
     xarray_adapter(ctx, 'C02.6')
     linearisation(ctx)
+    honoured_parameters(ctx)
 
 
 # ---------------------------------------------------------------------------
@@ -456,3 +461,157 @@ def linearisation(ctx):
     from .. import diaglen
     diaglen.check(ctx, 'C02.7')
     ctx.floor('C02.7', 5)
+
+
+# ---------------------------------------------------------------------------
+# C02.8  request parameters are honoured in every mode
+# ---------------------------------------------------------------------------
+
+def _b(name):
+    return name.split('@')[0]
+
+
+def _loads(e):
+    out = set()
+    for x in ast.walk(e):
+        if isinstance(x, ast.Name) and isinstance(x.ctx, ast.Load):
+            out.add(_b(x.id))
+        elif isinstance(x, ast.Attribute) and isinstance(x.ctx, ast.Load):
+            out.add(U(x))
+    return out
+
+
+def _flows_into(fm, fnode, rets):
+    """names / attribute texts whose value may flow into a returned value: closure of data dependence over the
+    statements reachable in this mode (flow-insensitive, so it over-approximates the flow and under-approximates alarms;
+    control dependence - a range check, a defaulting test - does not count)."""
+    want = set()
+    contributing = list(rets)
+    for r in rets:
+        want |= _loads(r.value)
+    stmts = [s for s in ast.walk(fnode) if isinstance(s, ast.stmt) and id(s) in fm.reachable]
+    changed = True
+    while changed:
+        changed = False
+        for s in stmts:
+            add = set()
+            if isinstance(s, (ast.Assign, ast.AugAssign, ast.AnnAssign)) and s.value is not None:
+                tg = s.targets if isinstance(s, ast.Assign) else [s.target]
+                names = set()
+                for t in tg:
+                    for x in ast.walk(t):
+                        if isinstance(x, ast.Name) and isinstance(x.ctx, ast.Store):
+                            names.add(_b(x.id))
+                        elif isinstance(x, ast.Attribute) and isinstance(x.ctx, ast.Store):
+                            names.add(U(x))
+                        elif isinstance(x, ast.Subscript) and isinstance(x.ctx, ast.Store):
+                            names |= _loads(x.value)
+                if names & want:
+                    add = _loads(s.value)
+                    for t in tg:
+                        add |= _loads(t)
+            elif isinstance(s, ast.Expr) and isinstance(s.value, ast.Call):
+                l = _loads(s.value)
+                if l & want:
+                    add = l
+            if not add and isinstance(s, (ast.Assign, ast.Expr)):
+                # a wanted buffer handed to a call (a pool submission inside a comprehension bound to `futures`): the call
+                # may fill it, so everything the call receives may flow into it
+                for c in ast.walk(s.value):
+                    if isinstance(c, ast.Call) and any(isinstance(a, ast.Name) and _b(a.id) in want for a in c.args):
+                        add |= _loads(c)
+                        for comp in ast.walk(s.value):
+                            if isinstance(comp, ast.comprehension):
+                                add |= _loads(comp.iter)
+            elif isinstance(s, ast.For):
+                names = {_b(x.id) for x in ast.walk(s.target) if isinstance(x, ast.Name)}
+                if names & want:
+                    add = _loads(s.iter)
+            elif isinstance(s, ast.With):
+                for it in s.items:
+                    if it.optional_vars is not None and \
+                            {_b(x.id) for x in ast.walk(it.optional_vars) if isinstance(x, ast.Name)} & want:
+                        add |= _loads(it.context_expr)
+            if add and not any(s is c for c in contributing):
+                contributing.append(s)
+            if add - want:
+                want |= add
+                changed = True
+    return want, contributing
+
+
+def _incoming_value_used(fm, contributing, p):
+    """does a statement that feeds the result read the parameter while its incoming value (or something computed from
+    it) is still in it?  A load of the name after `p = <expression without p>` on every path reads another value."""
+    from ..facts import tokens
+    for s in contributing:
+        for n in ast.walk(s):
+            if isinstance(n, ast.stmt) and n is not s:
+                continue
+            if isinstance(n, ast.Name) and _b(n.id) == p and isinstance(n.ctx, ast.Load):
+                for facts in fm.paths_at(n):
+                    defs = [a for a in facts if a[0] == 'def' and _b(a[1]) == p]
+                    if not defs or any(p in {_b(t) for t in tokens(str(a[2]))} for a in defs):
+                        return True
+    return False
+
+
+def honoured_parameters(ctx):
+    """A public read method takes its request as parameters; in each mode (2D / 3D file) in which the method can
+    return data, every parameter other than a boolean switch must reach the returned value by data flow.  A window
+    parameter dropped in one mode returns the whole trace / plane where a slice of it was asked for."""
+    P = ctx.P
+    n = 0
+    for cls in RF.reader_classes(P):
+        for f in sorted(cls.methods.values(), key=lambda f: f.node.lineno):
+            if f.name.startswith('_') or not f.is_method:
+                continue
+            if any(isinstance(x, (ast.Yield, ast.YieldFrom)) for x in ast.walk(f.node)):
+                continue
+            params = [p for p in f.call_params()
+                      if not (isinstance(f.defaults.get(p), ast.Constant) and isinstance(f.defaults[p].value, bool))]
+            if not params:
+                continue
+            for mode in ('2d', '3d'):
+                fm = RF.factmap(P, f, mode)
+                rets = [r for r in ast.walk(f.node) if isinstance(r, ast.Return) and r.value is not None
+                        and U(r.value) != 'None' and fm.is_reachable(r)]
+                if not rets:
+                    continue        # the mode is refused (dimensionality error) or the method returns nothing
+                w, contributing = _flows_into(fm, f.node, rets)
+                for p in params:
+                    n += 1
+                    if p in w and _incoming_value_used(fm, contributing, p):
+                        ctx.ok('C02.8', f, rets[0], 'parameter `%s` reaches the value returned for a %s file' % (p, mode.upper()),
+                               nontrivial=(f.defaults.get(p) is not None))
+                    else:
+                        ctx.fail('C02.8', f, f.node.args, 'parameter `%s` of the public read method `%s` is ignored for %s files: '
+                                 'no data flow from it to a value returned on the paths of that mode (return at line %d), '
+                                 'so a windowed request returns the unwindowed result' % (p, f.name, mode.upper(), rets[0].lineno),
+                                 key_extra='%s|%s' % (p, mode), line=f.node.lineno)
+    # the loaders (one per layout family): every parameter reaches the decoded array; a parameter that selects the path
+    # (a test enclosing a statement that feeds the result) counts as well
+    from ..facts import FactMap
+    for cls in P.classes.values():
+        if cls.module.name != 'loader':
+            continue
+        for f in sorted(cls.methods.values(), key=lambda f: f.node.lineno):
+            if f.name.startswith('_') or not f.is_method:
+                continue
+            fm = FactMap(f.node)
+            rets = [r for r in ast.walk(f.node) if isinstance(r, ast.Return) and r.value is not None
+                    and U(r.value) != 'None' and fm.is_reachable(r)]
+            if not rets:
+                continue
+            w, contributing = _flows_into(fm, f.node, rets)
+            for p in f.call_params():
+                n += 1
+                ctl = any(isinstance(t, (ast.If, ast.While)) and p in _loads(t.test) and
+                          any(c is x for c in contributing for x in ast.walk(t)) for t in ast.walk(f.node))
+                if (p in w and _incoming_value_used(fm, contributing, p)) or ctl:
+                    ctx.ok('C02.8', f, rets[0], 'loader parameter `%s` reaches the decoded array' % p)
+                else:
+                    ctx.fail('C02.8', f, f.node.args, 'parameter `%s` of the loader `%s` does not reach the decoded array it '
+                             'returns: the read does not depend on that part of the request' % (p, f.name),
+                             key_extra=p, line=f.node.lineno)
+    ctx.floor('C02.8', 100, '(method, mode, parameter) triples')
